@@ -158,7 +158,10 @@ def _df(shard):
     N = 40
     df0 = pd.DataFrame({"a": records.id1(N) + 0.1 * np.arange(N), "b": records.id2(N) - 3, "k": np.arange(N, dtype=np.int64) ** 2,
                         "label": [f"r{i}" for i in range(N)]})
-    for cols, order, inplace, suffix in itertools.product((None, ["a"], ["a", "k"], ["b", "label"]), (0, 1, 2, 3), (False, True), ("_detrended", "_d")):
+    frames = {"range": df0, "floatindex": df0.set_axis(np.arange(N) * 0.5 + 3.0), "shuffled-labels": df0.set_axis((np.arange(N) * 7) % N),
+              "datetime": df0.set_axis(pd.date_range("2024-01-01", periods=N, freq="s")), "slice": pd.concat([df0, df0]).iloc[10:10 + N]}
+    for (fname, dfx), cols, order, inplace, suffix in itertools.product(frames.items(), (None, ["a"], ["a", "k"], ["b", "label"]), (0, 1, 2, 3), (False, True), ("_detrended", "_d")):
+        df0 = dfx
         before = df0.copy(deep=True)
         out["evals"] += 1
         out["nontrivial"] += 1
@@ -190,6 +193,8 @@ def _df(shard):
                     prob.append(f"unselected column {c} got a detrended copy")
         if list(r["label"]) != list(df0["label"]) or f"label{suffix}" in r.columns:
             prob.append("non-numeric column altered")
+        if len(r) != len(df0) or not r.index.equals(df0.index):
+            prob.append(f"index/row count changed ({fname} index)")
         if prob:
             key = "df/" + prob[0].split(" ")[0]
             if key not in seen:
@@ -305,12 +310,18 @@ def _get_rms(shard):
 
     out = {"evals": 0, "nontrivial": 0, "failures": [], "samples": [], "extra": {}}
     seen = set()
-    for N, sch, order in itertools.product((64, 200), ("ltf", "vectorized_ltf", "lpsd"), (0, 1)):
+    for N, sch, order, colour in itertools.product((64, 200, 3000), ("ltf", "vectorized_ltf", "lpsd"), (0, 1), ("flat", "red2", "red3")):
+        if N < 3000 and colour != "flat":
+            continue
         x = records.get("id3", N, shard["seed"]) + 0.2
+        if colour == "red2":    # doubly / triply integrated record: power spectrum falling by many decades
+            x = np.cumsum(np.cumsum(x - x.mean()))
+        elif colour == "red3":
+            x = np.cumsum(np.cumsum(np.cumsum(x - x.mean())))
         r = ana.make_analyzer(x, 4.0, olap=0.5, Jdes=12, Kdes=4, order=order, scheduler=sch, win="hann").compute()
         f, asd = np.asarray(r.f), np.asarray(r.asd)
         mids = [0.5 * (a + b) for a, b in zip(f[:-1], f[1:])]
-        edges = sorted(set(f.tolist()[:4] + f.tolist()[-3:] + mids[:3] + [0.0, 10.0]))
+        edges = sorted(set(f.tolist()[:4] + f.tolist()[-3:] + mids[:3] + [0.0, 10.0] + f.tolist()[len(f) // 2: len(f) // 2 + 2] + [float(f[-1]) * 0.7]))
         for lo, hi in itertools.product(edges, edges):
             out["evals"] += 1
             out["nontrivial"] += 1
@@ -318,7 +329,7 @@ def _get_rms(shard):
             a, b = min(lo, hi), max(lo, hi)
             want = ref_rms(f, asd, a, b)
             want2 = float(integral_rms(f, asd, (a, b)))
-            if not (abs(got - want) <= 1e-12 * (want + 1) and abs(got - want2) <= 1e-12 * (want + 1)):
+            if not (abs(got - want) <= 1e-10 * want + 1e-300 and abs(got - want2) <= 1e-10 * want + 1e-300):
                 if "get_rms/value" not in seen:
                     seen.add("get_rms/value")
                     out["failures"].append(fw.fail("get_rms/value", f"get_rms(({lo},{hi}))={got!r} but integral over the band = {want!r} (integral_rms {want2!r}); N={N} {sch}", dict(shard)))
